@@ -97,9 +97,12 @@ def pseq(prog, t, depth=0):
         lp = need(prog.loops.get(t[1]), f"loop {t[1]} unknown")
         nxt, init = lp.next.get(t[2]), lp.init.get(t[2])
         need(init == ("list", ()), f"list {t[2]} does not start empty")
-        need(callee_name(lp.iter) == "builtins.range" and len(lp.iter[2]) == 1,
-             f"list {t[2]} is filled by a loop that is not 'for .. in range(n)'")
         elem = _append_elem(nxt, ("carried", t[1], t[2]))
+        if not (callee_name(lp.iter) == "builtins.range" and len(lp.iter[2]) == 1):
+            # for i, (a, b) in enumerate(zip(A, B)) / for a, b in zip(A, B) / for i, a in enumerate(A):
+            # iteration i sees a = A[i], b = B[i]
+            idx, mapping, n = _loop_over_lists(lp, t[2])
+            return PSeq(subst(elem, mapping), idx, 0, None, n)
         need(lp.target[0] == "loopvar", "loop target is not a single variable")
         return PSeq(elem, lp.target, 0, None, lp.iter[2][0])
     if t[0] == "binop" and t[1] == "+":
@@ -190,6 +193,28 @@ def pseq(prog, t, depth=0):
 
 
 BASE = ("basevar",)
+
+
+def _loop_over_lists(lp, name):
+    """A loop header that walks one or several lists in step: (index variable, {element variable: list[index]}, length)."""
+    it, tg = lp.iter, lp.target
+    idx = None
+    if callee_name(it) == "builtins.enumerate" and len(it[2]) == 1 and not it[3] and tg[0] == "tuple" and len(tg[1]) == 2 \
+            and tg[1][0][0] == "loopvar":
+        idx, it, tg = tg[1][0], it[2][0], tg[1][1]
+    if idx is None:
+        idx = ("loopvar", lp.id, "<index>")
+    if callee_name(it) == "builtins.zip" and it[2] and not any(x[0] == "star" for x in it[2]):
+        lists = list(it[2])
+        need(tg[0] == "tuple" and len(tg[1]) == len(lists) and all(x[0] == "loopvar" for x in tg[1]),
+             f"list {name}: the targets of the loop over zip(...) are not one variable per list")
+        targets = list(tg[1])
+    else:
+        need(tg[0] == "loopvar" and it[0] in ("loopout", "param", "binop", "list", "comp", "call", "sub"),
+             f"list {name} is filled by a loop that is neither 'for .. in range(n)' nor a walk over per-period lists")
+        lists, targets = [it], [tg]
+    mapping = {v: ("sub", L, idx) for v, L in zip(targets, lists, strict=True)}
+    return idx, mapping, ("call", ("glob", "builtins.len"), (lists[0],), ())
 
 
 def _append_elem(nxt, carried):
@@ -585,6 +610,7 @@ def per_rules(ctx: Ctx):
     _flags(ctx, prog, uf, "u_and_f")
     # is_last_period semantics
     _last_period_flag(ctx, prog, glf)
+    _flag_of_own_period(ctx, prog, glf)
 
     # ------------------------------------------------------------------ simulate
     simfr = prog.frame(SIM)
@@ -699,6 +725,39 @@ def _is_last_flag(f):
     return False
 
 
+def _flag_of_own_period(ctx, prog, glf):
+    """Wherever a per-period factory is called with both `period=P` and `is_last_period=F` -- in a loop body or in a
+    comprehension --, F is (P == n_periods - 1) for the same P."""
+    from lcmsa.match import frame_terms, loop_terms
+
+    seen = set()
+    for t in frame_terms(glf) + loop_terms(prog, glf):
+        for c in walk(t):
+            if c[0] != "call" or c in seen or callee_name(c) not in FACTORY_PERIOD_KW:
+                continue
+            seen.add(c)
+            f, p = kw(c, "is_last_period"), kw(c, FACTORY_PERIOD_KW[callee_name(c)])
+            if f is None or p is None:
+                continue
+            key = f"PER4:flag-of-own-period:{callee_name(c).split('.')[-1]}"
+            verdict, why = None, f"is_last_period flag not recognised: {show(f)[:60]}"
+            if f[0] == "cmp" and f[1] == ("==",) and len(f[2]) == 2 and p in f[2]:
+                other = f[2][1] if f[2][0] == p else f[2][0]
+                n_like = other[0] == "binop" and other[1] == "-" and other[3] == ("const", 1) and (
+                    (other[2][0] == "attr" and other[2][2] == "n_periods") or callee_name(other[2]) == "builtins.len")
+                verdict = bool(n_like)
+                why = ("is_last_period is (period == n_periods - 1) for the period the object is built for" if n_like else
+                       f"is_last_period compares the period with {show(other)[:50]}, not with n_periods - 1")
+            elif f[0] == "cmp" and f[1] == ("==",) and len(f[2]) == 2 and any(
+                    x[0] == "binop" and x[1] == "-" and x[3] == ("const", 1) and x[2][0] == "attr" and x[2][2] == "n_periods" for x in f[2]):
+                other = next(x for x in f[2] if not (x[0] == "binop" and x[1] == "-" and x[3] == ("const", 1)))
+                if affine(other, p) is not None and affine(other, p) != (1, 0):
+                    verdict, why = False, f"is_last_period is computed for period {show(other)[:40]}, the object is built for period {show(p)[:40]}"
+            ctx.ob(key, verdict, prog.where(c), why, lhs=f, rhs=f"{show(p)[:40]} == n_periods - 1")
+            ctx.count("flagged_factories")
+    ctx.floor("flagged_factories", 2)
+
+
 def _last_period_flag(ctx, prog, glf):
     """The loops run over range(N) and the flag compares with N-1 for the same N."""
     loops = [lp for lid, lp in prog.loops.items() if lp.func == GLF and "@" not in lid]
@@ -710,11 +769,19 @@ def _last_period_flag(ctx, prog, glf):
         if flag is None:
             continue
         n = lp.iter[2][0] if callee_name(lp.iter) == "builtins.range" and len(lp.iter[2]) == 1 else None
-        ok = False
+        index_var = lp.target
+        if n is None:
+            # the loop walks per-period lists (enumerate / zip): its bound is their length
+            try:
+                index_var, mapping, _len = _loop_over_lists(lp, "is_last_period")
+                n = pseq(prog, next(iter(mapping.values()))[1]).n
+            except AnalysisError:
+                n = None
+        ok = False if n is not None else None
         if n is not None and flag[0] == "cmp" and flag[1] == ("==",):
             a, b = flag[2]
             for x, y in ((a, b), (b, a)):
-                if x == lp.target and y == ("binop", "-", n, ("const", 1)):
+                if x == index_var and y == ("binop", "-", n, ("const", 1)):
                     ok = True
         ctx.ob(f"PER4:last-period-flag:{lp.id.split(':')[-1]}", ok, prog.where(flag),
                "is_last_period is true exactly for the last index of the period loop" if ok else
